@@ -8,7 +8,6 @@ from harness import core
 ID = 'C10'
 TITLE = 'Removing rows leaves no references to them'
 PROPS = ['Props/C10']
-DISABLED = True
 RULE = ('(L1) random op sequences (set/unset/growto/copy_from_column/clear; right-type, wrong-type, out-of-range, '
         'string-hack values) on REAL ReferenceColumn/ReferenceListColumn objects vs the model; (L2) every call the live '
         'reference-column objects receive during random user-action histories (recorded by wrapping the column classes) '
@@ -190,13 +189,24 @@ class Oracle(object):
       self.world_case(e, bundle, out, tok, exc)
     if out is None:
       self.bump('bundles_failed')
+      # the rollback of a ReplaceTableData is a ReplaceTableData: the same clear() that keeps the relation
+      for tid, cid, c in (k4.ref_columns(e, data_only=False) if self.internal else []):
+        d = k4.index_exact(c)
+        if d and (tid, cid) not in tok['stale']:
+          replaced = any(a[0] == 'ReplaceTableData' and a[1] == tid for a in bundle)
+          self.issues.append(('stale_index_after_replace_table_data' if replaced else 'stale_index_after_failed_bundle',
+                              'after the failed bundle %r the reverse index of %s.%s is not the reverse of its cells: %s'
+                              % (bundle, tid, cid, d)))
+          return 'stop'
       return None
     replaced = {a[1]: set(a[2]) for a in bundle if a[0] == 'ReplaceTableData'}
     now = {t: set(e.tables[t].row_ids) for t in e.tables}
     removed = {t: rows - now.get(t, set()) for t, rows in tok['rows'].items()}
     cols = k4.ref_columns(e)
-    # (i) no cell mentions a row removed by this bundle
-    for tid, cid, c in cols:
+    # (i) no cell mentions a row removed by this bundle.  An undo is exempt: it re-creates the state before the
+    # undone bundle exactly (C01), including references that were dangling then.
+    is_undo = bool(bundle) and bundle[0][0] == '@UndoPrevious'
+    for tid, cid, c in ([] if is_undo else cols):
       rm = removed.get(k4.target_id(c))
       if not rm:
         continue
